@@ -1,7 +1,201 @@
 import Mutagen.Driver.Util
+import Mutagen.Model.Framing
 namespace Mutagen.Driver.C22
+open Mutagen.Driver Mutagen.Model.Framing
 
-/-- Model-side handler for one line of the C22 correspondence stream. -/
-def handle (_line : String) : String := "unimplemented"
+/-!
+Lines (the harness `cmd/c22` documents the same grammar):
+* `uve <n>` — `protowire.AppendVarint`; answer: hex.
+* `uvd <hex>` — `binary.ReadUvarint`; answer `<value|-> <ok|eof|ueof|other> <consumed>`.
+* `mf <n> <i,j,…|->` — `NewMultiFlusher` over n scripted flushers of which the
+  listed ones fail; answer `<call order> <ok|e<i>>`.
+* `enc <wcap|-> <msg,msg,…>` — `ProtobufEncoder` into a writer accepting wcap
+  bytes; answer `<ok|werr per message> <len>.<fnv of what the writer got>`.
+* `dec <sizes> <seg+seg+…>` — `ProtobufDecoder` on the byte stream fragmented
+  by `sizes`; answer `<decoded messages> <error class>@<bytes consumed>`.
+* `pipe <alg> <buf1> <buf2> <sizes> <op> …` with ops `m<data>` (Encode) and `f`
+  (multi-flusher Flush), closed at the end; answer: per flush point
+  `[<messages decoded since the last one>]r<undecoded plain bytes>`, then the
+  same for the close, then the result of one more Decode, then (algorithm
+  `none` only) `w<len>.<fnv>` of the wire.
+Data: `h<hex>` literal, `g<len>.<a>.<b>` byte i = a + i·b, `r<len>.<seed>` LCG.
+Messages are `wrapperspb.BytesValue`s holding the data; a message prints as
+`<len>.<fnv32a>` of its data.
+-/
+
+def fnv (bs : List UInt8) : UInt32 :=
+  bs.foldl (fun h b => (h ^^^ b.toUInt32) * 16777619) 2166136261
+
+def digest (bs : List UInt8) : String := s!"{bs.length}.{(fnv bs).toNat}"
+
+def genArith (n a b : Nat) : List UInt8 :=
+  let rec go (i : Nat) (acc : List UInt8) : List UInt8 :=
+    match i with
+    | 0 => acc
+    | i + 1 => go i (UInt8.ofNat (a + i * b) :: acc)
+  go n []
+
+def genLcg (n : Nat) (seed : UInt32) : List UInt8 :=
+  let rec go (i : Nat) (x : UInt32) (acc : List UInt8) : List UInt8 :=
+    match i with
+    | 0 => acc.reverse
+    | i + 1 =>
+      let x := x * 1664525 + 1013904223
+      go i x ((x >>> 24).toUInt8 :: acc)
+  go n seed []
+
+def parseData (s : String) : Option (List UInt8) :=
+  match s.toList with
+  | 'h' :: rest => decHex (String.ofList rest)
+  | 'g' :: rest =>
+    match (String.ofList rest).splitOn "." with
+    | [n, a, b] => do pure (genArith (← n.toNat?) (← a.toNat?) (← b.toNat?))
+    | _ => none
+  | 'r' :: rest =>
+    match (String.ofList rest).splitOn "." with
+    | [n, seed] => do pure (genLcg (← n.toNat?) (UInt32.ofNat (← seed.toNat?)))
+    | _ => none
+  | _ => none
+
+/-- `proto.Marshal(&wrapperspb.BytesValue{Value: d})`. -/
+def marshalBV (d : List UInt8) : List UInt8 :=
+  if d.isEmpty then [] else 0x0a :: (appendVarint d.length ++ d)
+
+/-- Strict inverse of `marshalBV` (the harness only produces canonical
+payloads, and payloads no protobuf parser accepts). -/
+def unmarshalBV (p : List UInt8) : Option (List UInt8) :=
+  match p with
+  | [] => some []
+  | 0x0a :: rest =>
+    match readUvarint ⟨[rest]⟩ with
+    | (src, .ok n) =>
+      let body := src.chunks.flatten
+      if body.length = n ∧ n > 0 ∧ appendVarint n ++ body = rest then some body else none
+    | _ => none
+  | _ => none
+
+def showMsgs (ms : List (List UInt8)) : String :=
+  if ms.isEmpty then "-" else ",".intercalate (ms.map digest)
+
+def errClass : DecErr → String
+  | .lenEof | .msgEof => "eof"
+  | .lenUeof | .msgUeof => "ueof"
+  | .lenOverflow | .tooLarge => "other"
+  | .unmarshal => "unmarshal"
+
+def parseCap (s : String) : Option (Option Nat) :=
+  if s == "-" then some none else s.toNat?.map some
+
+-- mf ------------------------------------------------------------------------------
+
+def scriptedFlusher (i : Nat) (fails : Bool) (log : List Nat) : List Nat × Option Nat :=
+  (log ++ [i], if fails then some i else none)
+
+def runMf (n : Nat) (failing : List Nat) : String :=
+  let fs := (List.range n).map fun i => scriptedFlusher i (failing.contains i)
+  let (log, r) := multiFlush fs []
+  s!"{showNatList log} " ++ (match r with | none => "ok" | some i => s!"e{i}")
+
+-- enc -----------------------------------------------------------------------------
+
+def runEnc (cap : Option Nat) (msgs : List (List UInt8)) : String :=
+  let rec go (w : Sink) (ms : List (List UInt8)) (acc : List String) : Sink × List String :=
+    match ms with
+    | [] => (w, acc.reverse)
+    | m :: rest =>
+      match encode marshalBV w m with
+      | (w', true) => go w' rest ("ok" :: acc)
+      | (w', false) => (w', ("werr" :: acc).reverse)
+  let (w, st) := go { wcap := cap, got := [] } msgs []
+  (if st.isEmpty then "-" else ",".intercalate st) ++ " " ++ digest w.got
+
+-- dec -----------------------------------------------------------------------------
+
+def runDec (sizes : List Nat) (stream : List UInt8) : String :=
+  let src : Src := ⟨fragments sizes stream⟩
+  let (ms, e, rest) := decodeAll unmarshalBV src
+  s!"{showMsgs ms} {errClass e}@{stream.length - rest.size}"
+
+-- pipe ----------------------------------------------------------------------------
+
+structure PipeSt where
+  tx : TxPipe
+  delivered : Nat          -- wire bytes already handed to the receiver
+  rx : Src
+  pending : Nat            -- messages encoded since the last decode point
+  out : List String
+  dead : Bool
+
+def deliverAndDecode (sizes : List Nat) (st : PipeSt) : PipeSt :=
+  let fresh := st.tx.wire.drop st.delivered
+  let rx : Src := ⟨st.rx.chunks ++ fragments sizes fresh⟩
+  let (ms, e, rx') := decodeN unmarshalBV st.pending rx []
+  match e with
+  | none => { st with delivered := st.tx.wire.length, rx := rx', pending := 0,
+                      out := s!"[{showMsgs ms}]r{rx'.size}" :: st.out }
+  | some _ => { st with delivered := st.tx.wire.length, rx := rx', pending := 0,
+                        out := s!"[{showMsgs ms}]starved" :: st.out, dead := true }
+
+def stepPipe (sizes : List Nat) (st : PipeSt) (op : String) : Option PipeSt :=
+  if st.dead then some st else
+  match op.toList with
+  | ['f'] =>
+    let (tx, _) := st.tx.flush
+    some (deliverAndDecode sizes { st with tx := tx })
+  | 'm' :: d => do
+    let data ← parseData (String.ofList d)
+    let tx := st.tx.write (frame (marshalBV data))
+    pure { st with tx := tx, pending := st.pending + 1 }
+  | _ => none
+
+def runPipe (alg : String) (sizes : List Nat) (ops : List String) : String :=
+  let init : PipeSt := { tx := TxPipe.empty, delivered := 0, rx := ⟨[]⟩, pending := 0, out := [], dead := false }
+  match ops.foldlM (stepPipe sizes) init with
+  | none => "bad-op"
+  | some st =>
+    if st.dead then " ".intercalate st.out.reverse else
+    -- close: flush outbound, close the compressor, flush compressedOutbound, EOF
+    let (tx, _) := st.tx.flush
+    let st := deliverAndDecode sizes { st with tx := tx }
+    if st.dead then " ".intercalate st.out.reverse else
+    let last := match decode unmarshalBV st.rx with
+      | (_, .ok _) => "extra-message"
+      | (_, .error .lenEof) => "eof"
+      | (_, .error e) => errClass e ++ "!"
+    let wire := if alg == "none" then s!" w{digest st.tx.wire}" else ""
+    " ".intercalate st.out.reverse ++ " " ++ last ++ wire
+
+def handle (line : String) : String :=
+  match fields line with
+  | ["uve", n] =>
+    match n.toNat? with
+    | some v => encHex (appendVarint v)
+    | none => "bad-op"
+  | ["uvd", h] =>
+    match decHex h with
+    | some bs =>
+      match readUvarint ⟨[bs]⟩ with
+      | (src, .ok v) => s!"{v} ok {bs.length - src.size}"
+      | (src, .error .eof) => s!"- eof {bs.length - src.size}"
+      | (src, .error .ueof) => s!"- ueof {bs.length - src.size}"
+      | (src, .error .overflow) => s!"- other {bs.length - src.size}"
+    | none => "bad-op"
+  | ["mf", n, failing] =>
+    match n.toNat?, natList failing with
+    | some n, some f => runMf n f
+    | _, _ => "bad-op"
+  | ["enc", cap, msgs] =>
+    match parseCap cap, (listField msgs).mapM parseData with
+    | some c, some ms => runEnc c ms
+    | _, _ => "bad-op"
+  | ["dec", sizes, segs] =>
+    match natList sizes, (segs.splitOn "+").mapM parseData with
+    | some sz, some parts => runDec sz parts.flatten
+    | _, _ => "bad-op"
+  | "pipe" :: alg :: _ :: _ :: sizes :: ops =>
+    match natList sizes with
+    | some sz => runPipe alg sz ops
+    | none => "bad-op"
+  | _ => "bad-op"
 
 end Mutagen.Driver.C22
